@@ -11,7 +11,7 @@ let bump k = Hashtbl.replace hist k (1 + try Hashtbl.find hist k with Not_found 
 let samples : string list ref = ref []
 let seen : (string, unit) Hashtbl.t = Hashtbl.create 10007
 
-let nty = 4 and ndyn = 3
+let nty = 4 and ndyn = 4
 let universe : (n * n) list =
   List.concat_map (fun t -> List.map (fun d -> (n_of_int t, n_of_int d)) (List.init ndyn (fun i -> i))) (List.init nty (fun i -> i))
 
